@@ -519,6 +519,14 @@ class Machine:
             cs = gs.CondSRF(kr, seed=3, mode_no=6)
             r2 = cs(pos, ext_drift=tdrift)
             self.track(r2, "returned:condsrf_extdrift", site, "result")
+        if rs.random() < 0.5:
+            # structured targets: the drift comes in grid shape (a map), or with a leading axis
+            axes, shape = self._pos(op, rs, site, "structured")
+            gshape = shape if rs.random() < 0.7 else (1,) + tuple(shape)
+            gdrift = self.alloc("ext_drift", self._vals(rs, gshape, -1, 1), lay, site)
+            r3 = kr(axes, mesh_type="structured", ext_drift=gdrift, return_var=rs.random() < 0.5)
+            for r in (r3 if isinstance(r3, tuple) else (r3,)):
+                self.track(r, "returned:extdrift_structured", site, "result")
 
     def _c_universal(self, op, rs, site):
         """Universal kriging: polynomial / callable drift terms are evaluated at the caller's
@@ -784,7 +792,13 @@ class Machine:
 
     def _c_array_transform(self, op, rs, site):
         fn = getattr(gs.transform, op["method"])
-        data = self.alloc("field", self._vals(rs, (op["n"] + 2,), 0.5, 3.0), op["layout"], site)
+        vals = self._vals(rs, (op["n"] + 2,), 0.5, 3.0)
+        if op["method"] in ("array_force_moments", "array_zinnharvey", "array_to_uniform",
+                            "array_to_arcsin", "array_to_uquad") and rs.random() < 0.4:
+            # centred data: the arithmetic mean is exactly 0
+            half = [float(k) * rs.choice([0.5, 1.0, 2.0]) for k in range(1, op["n"] // 2 + 2)]
+            vals = np.array([-v for v in reversed(half)] + [0.0] + half)
+        data = self.alloc("field", vals, op["layout"], site)
         kw = {}
         if op["method"] == "array_discrete":
             # class values in no particular order; explicit thresholds are a caller array too
